@@ -510,6 +510,10 @@ class Interp:
         for nm in assigned:
             if nm in body.env and body.env[nm] != UNBOUND:
                 body.env[nm] = T("carried", nm, body.env[nm], lid)
+            else:
+                # a local first bound inside the body: a read before the write sees the previous iteration's value
+                # (or raises NameError in the first iteration) - never a module-level name
+                body.env[nm] = T("carried", nm, UNBOUND, lid)
         for nm in heap_assigned:
             if nm in body.heap:
                 body.heap[nm] = T("carried", "self." + nm, body.heap[nm], lid)
@@ -701,6 +705,10 @@ class Interp:
         for nm in assigned:
             if nm in body.env and body.env[nm] != UNBOUND:
                 body.env[nm] = T("carried", nm, body.env[nm], lid)
+            else:
+                # a local first bound inside the body: a read before the write sees the previous iteration's value
+                # (or raises NameError in the first iteration) - never a module-level name
+                body.env[nm] = T("carried", nm, UNBOUND, lid)
         for nm in heap_assigned:
             if nm in body.heap:
                 body.heap[nm] = T("carried", "self." + nm, body.heap[nm], lid)
